@@ -1,13 +1,13 @@
 SPECIFICATION Spec
 CONSTANTS Pipes = {1, 2, 3}
-          MaxMsgs = 14
-          MaxOps = 5
+          MaxMsgs = 26
+          MaxOps = 26
           MaxNow = 400
           Ticks = {5, 10, 35}
           STimes = {40, 100}
           SendCap = 8
           RecvCap = 128
-          Focus = "all"
+          Focus = "sendq"
           FlushOnNew = TRUE
 INVARIANTS OnlyCurrentBeforeDeadline RecvBounded NoLostWakeup PollR WireSound
 ACTION_CONSTRAINT ExportEdge
